@@ -589,6 +589,199 @@ theorem expand_initial_state_consistent (b : Bq Label) (red : List (Pair × Labe
     ∧ (∀ e ∈ red, ∃ su sv, getKey st' e.1.1 = some su ∧ getKey st' e.1.2 = some sv ∧ getKey st' e.2.1 = some (su * sv)) :=
   expandInitialState_consistent b red hf st st' h
 
+/-! ## `HigherOrderComposite` end to end: `make_quadratic` tied to the reported polynomial energies -/
+
+/-- the product constraint of `make_quadratic_cqm` / `reduce_binary_polynomial` **holds (`== 0`) iff the introduced
+    variable equals the product it stands for** — the constraint expression `var(u)·var(v) − var(p)` is the same for
+    BINARY and SPIN models (`var(x)` = the one-variable model of the requested vartype), at every sample -/
+theorem make_quadratic_cqm_constraint_iff (c : Pair × Label) (x : Label → Rat) :
+    evalBag x (prodConstraint c).2 = 0 ↔ x c.2 = x c.1.1 * x c.1.2 := by
+  rw [make_quadratic_cqm_constraint]; constructor <;> intro h <;> grind
+
+/-- hence a sample is feasible for `make_quadratic_cqm`'s model iff every introduced variable equals its product -/
+theorem make_quadratic_cqm_feasible_iff (reserved : List Label) (vt : VT) (raw : List (List Label × Rat)) (choices : List Pair)
+    (obj : List (PTerm Label)) (cons : List (String × List (PTerm Label)))
+    (h : makeQuadraticCqm reserved vt raw choices = some (obj, cons)) (x : Label → Rat) :
+    ∃ st : BK, bkReduce (normPoly vt raw) (polyVars (normPoly vt raw) ++ reserved) choices = some st
+      ∧ ((∀ c ∈ cons, evalBag x c.2 = 0) ↔ ∀ c ∈ st.constraints, x c.2 = x c.1.1 * x c.1.2) := by
+  unfold makeQuadraticCqm at h
+  split at h
+  · simp at h
+  · rename_i s hs
+    split at h
+    · simp at h
+    · split at h
+      · simp at h
+      · simp only [Option.some.injEq, Prod.mk.injEq] at h
+        obtain ⟨_, hcons⟩ := h
+        refine ⟨s, hs, ?_⟩
+        rw [← hcons]
+        simp only [List.mem_map, forall_exists_index, and_imp, forall_apply_eq_imp_iff₂]
+        constructor
+        · intro hf c hc; exact (make_quadratic_cqm_constraint_iff c x).1 (hf c hc)
+        · intro hf c hc; exact (make_quadratic_cqm_constraint_iff c x).2 (hf c hc)
+
+/-- **`HigherOrderComposite.sample_poly`, BINARY polynomial, end to end** (`penalty_strength ≥ 0`, every option, any
+    child sampler): the child is called on `make_quadratic(poly, penalty_strength, BINARY)`; every returned row stems from
+    a row `x` of the child's response, reports the polynomial's energy of `x`, and for 0/1 rows
+    * the quadratic model's energy of `x` is never below the reduced polynomial's (the penalty is never negative);
+    * if the row is reported as satisfying the penalties (always, with `discard_unsatisfied`), the energy the child saw
+      for `x` **is** the reported polynomial energy;
+    * if it is reported unsatisfied, the child's energy lies at least `penalty_strength` above the reduced polynomial. -/
+theorem hoc_end_to_end_binary (child : Bq Label → Option (List (Label × Rat)) → Response)
+    (raw : List (List Label × Rat)) (choices : List Pair) (hch : ∀ c ∈ choices, c.1 ≠ c.2)
+    (strength : Rat) (hs : 0 ≤ strength) (keep discard : Bool) (init : Option (List (Label × Rat))) (out : List HocRow)
+    (h : samplePoly child .binary raw choices strength keep discard init = some out) :
+    ∃ bag st auxs init', makeQuadratic [] .binary strength raw choices = some (bag, st, auxs)
+      ∧ ∀ r ∈ out, ∃ x ∈ (child ((Bq.empty .binary : Bq Label).apply bag) init').rows,
+          r.energy = polyEnergy x (normPoly .binary raw)
+          ∧ ((∀ l, x l ∈ [(0 : Rat), 1]) →
+              polyEnergy x st.reduced ≤ ((Bq.empty .binary : Bq Label).apply bag).energy x
+              ∧ (r.sat = true → ((Bq.empty .binary : Bq Label).apply bag).energy x = r.energy)
+              ∧ (r.sat = false → polyEnergy x st.reduced + strength ≤ ((Bq.empty .binary : Bq Label).apply bag).energy x)) := by
+  obtain ⟨bag, st, auxs, init', hmq, _, hout⟩ := samplePoly_spec child .binary raw choices strength keep discard init out h
+  refine ⟨bag, st, auxs, init', hmq, ?_⟩
+  have hspec := polymorphResponse_spec (normPoly .binary raw) st.constraints keep discard (child ((Bq.empty .binary : Bq Label).apply bag) init')
+  rw [← hout] at hspec
+  intro r hr
+  obtain ⟨x, hxm, hdisc, _, hen, hsat⟩ := hspec.2.1 r hr
+  refine ⟨x, hxm, hen, fun hx => ?_⟩
+  have hdom : Dom (Bq.empty .binary : Bq Label).vt x := by
+    intro v
+    have := hx v
+    simp only [List.mem_cons, List.not_mem_nil, or_false] at this
+    rcases this with h0 | h1
+    · rw [h0]; grind
+    · rw [h1]; grind
+  have hE : ((Bq.empty .binary : Bq Label).apply bag).energy x = evalBag x bag := by
+    rw [apply_energy _ x hdom]
+    simp only [Bq.empty, Bq.energy, Bq.linSum, Bq.quadSum]; grind
+  have he := make_quadratic_energy [] strength raw choices bag st auxs hmq x
+  have hpen := make_quadratic_penalty_nonneg x hx st.constraints
+  refine ⟨?_, ?_, ?_⟩
+  · rw [hE, he]
+    have := Rat.mul_nonneg hs hpen.1
+    grind
+  · intro hsat'
+    have hall : ∀ c ∈ st.constraints, x c.2 = x c.1.1 * x c.1.2 := by
+      rcases hsat.1 hsat' with hd | ha
+      · intro c hc; exact (hdisc hd c hc).symm
+      · intro c hc; exact (ha c hc).symm
+    rw [hE, hen]
+    exact make_quadratic_exact [] strength raw choices bag st auxs hmq hch x hx hall
+  · intro hsat'
+    have hex : ∃ c ∈ st.constraints, x c.2 ≠ x c.1.1 * x c.1.2 := by
+      apply Classical.byContradiction
+      intro hne
+      have hall : ∀ c ∈ st.constraints, x c.1.1 * x c.1.2 = x c.2 := by
+        intro c hc
+        apply Classical.byContradiction
+        intro hcc
+        exact hne ⟨c, hc, fun e => hcc e.symm⟩
+      have := hsat.2 (Or.inr hall)
+      rw [hsat'] at this
+      exact Bool.false_ne_true this
+    have h1 := hpen.2.2 hex
+    rw [hE, he]
+    have : strength * 1 ≤ strength * penSumB x st.constraints := Rat.mul_le_mul_of_nonneg_left h1 hs
+    grind
+
+/-- the reduced polynomial of a successful `make_quadratic` has the polynomial's energy at every assignment in which
+    each introduced variable equals its product (either vartype) -/
+theorem make_quadratic_reduced_consistent (reserved : List Label) (vt : VT) (strength : Rat) (raw : List (List Label × Rat)) (choices : List Pair)
+    (bag : List (PTerm Label)) (st : BK) (auxs : List Label)
+    (h : makeQuadratic reserved vt strength raw choices = some (bag, st, auxs)) (hch : ∀ c ∈ choices, c.1 ≠ c.2)
+    (x : Label → Rat) (hc : ∀ c ∈ st.constraints, x c.2 = x c.1.1 * x c.1.2) :
+    polyEnergy x st.reduced = polyEnergy x (normPoly vt raw) := by
+  unfold makeQuadratic at h
+  split at h
+  · simp at h
+  · rename_i s hs
+    split at h
+    · simp at h
+    · rename_i hidx
+      split at h
+      · simp at h
+      · simp only [Option.some.injEq, Prod.mk.injEq] at h
+        obtain ⟨_, hst, _⟩ := h
+        subst hst
+        have hdone : s.idx = [] := by
+          cases hi : s.idx with
+          | nil => rfl
+          | cons a r => rw [hi] at hidx; simp at hidx
+        exact (bookkeeping_energy_consistent (normPoly vt raw) (polyVars (normPoly vt raw) ++ reserved) choices s
+          (normPoly_ok vt raw) (fun tb htb w hw => List.mem_append_left _ (polyVars_mem _ tb htb w hw)) hch hs hdone x hc).1
+
+/-- **`HigherOrderComposite.sample_poly`, SPIN polynomial, end to end** (`penalty_strength ≥ 0`, every option, any child
+    sampler): every returned row stems from a row `x` of the child's response on `make_quadratic(poly, strength, SPIN)`
+    and reports the polynomial's energy of `x`; for ±1 rows
+    * the quadratic model's energy of `x` (auxiliaries as the child set them) is never below the reduced polynomial's;
+    * if the row is reported as satisfying the penalties, the reported energy is ≤ the energy the child saw, and equals
+      the quadratic model's energy after re-setting only the spin auxiliaries (its minimum over the auxiliaries);
+    * if it is reported unsatisfied, the child's energy lies at least `penalty_strength` above the reduced polynomial. -/
+theorem hoc_end_to_end_spin (child : Bq Label → Option (List (Label × Rat)) → Response)
+    (raw : List (List Label × Rat)) (choices : List Pair) (hch : ∀ c ∈ choices, c.1 ≠ c.2)
+    (strength : Rat) (hs : 0 ≤ strength) (keep discard : Bool) (init : Option (List (Label × Rat))) (out : List HocRow)
+    (h : samplePoly child .spin raw choices strength keep discard init = some out) :
+    ∃ bag st auxs init', makeQuadratic [] .spin strength raw choices = some (bag, st, auxs)
+      ∧ ∀ r ∈ out, ∃ x ∈ (child ((Bq.empty .spin : Bq Label).apply bag) init').rows,
+          r.energy = polyEnergy x (normPoly .spin raw)
+          ∧ (Spin01 x →
+              polyEnergy x st.reduced ≤ ((Bq.empty .spin : Bq Label).apply bag).energy x
+              ∧ (r.sat = true → r.energy ≤ ((Bq.empty .spin : Bq Label).apply bag).energy x
+                    ∧ ∃ x', Spin01 x' ∧ (∀ l, l ∉ auxs → x' l = x l) ∧ ((Bq.empty .spin : Bq Label).apply bag).energy x' = r.energy)
+              ∧ (r.sat = false → polyEnergy x st.reduced + strength ≤ ((Bq.empty .spin : Bq Label).apply bag).energy x)) := by
+  obtain ⟨bag, st, auxs, init', hmq, _, hout⟩ := samplePoly_spec child .spin raw choices strength keep discard init out h
+  refine ⟨bag, st, auxs, init', hmq, ?_⟩
+  have hspec := polymorphResponse_spec (normPoly .spin raw) st.constraints keep discard (child ((Bq.empty .spin : Bq Label).apply bag) init')
+  rw [← hout] at hspec
+  intro r hr
+  obtain ⟨x, hxm, hdisc, _, hen, hsat⟩ := hspec.2.1 r hr
+  refine ⟨x, hxm, hen, fun hx => ?_⟩
+  have hdomOf : ∀ y : Label → Rat, Spin01 y → Dom (Bq.empty .spin : Bq Label).vt y := by
+    intro y hy v
+    have := hy v
+    simp only [List.mem_cons, List.not_mem_nil, or_false] at this
+    rcases this with h0 | h1
+    · rw [h0]; grind
+    · rw [h1]; grind
+  have hEof : ∀ y : Label → Rat, Spin01 y → ((Bq.empty .spin : Bq Label).apply bag).energy y = evalBag y bag := by
+    intro y hy
+    rw [apply_energy _ y (hdomOf y hy)]
+    simp only [Bq.empty, Bq.energy, Bq.linSum, Bq.quadSum]; grind
+  obtain ⟨he, hlen⟩ := make_quadratic_energy_spin [] strength raw choices bag st auxs hmq x
+  have hpen := make_quadratic_penalty_nonneg_spin x hx st.constraints auxs hlen
+  have hge : polyEnergy x st.reduced ≤ evalBag x bag := by
+    rw [he]
+    have := Rat.mul_nonneg hs hpen.1
+    grind
+  refine ⟨by rw [hEof x hx]; exact hge, ?_, ?_⟩
+  · intro hsat'
+    have hall : ∀ c ∈ st.constraints, x c.2 = x c.1.1 * x c.1.2 := by
+      rcases hsat.1 hsat' with hd | ha
+      · intro c hc; exact (hdisc hd c hc).symm
+      · intro c hc; exact (ha c hc).symm
+    have hred := make_quadratic_reduced_consistent [] .spin strength raw choices bag st auxs hmq hch x hall
+    refine ⟨by rw [hEof x hx, hen, ← hred]; exact hge, ?_⟩
+    obtain ⟨x', hx', hoff, hE', _⟩ := make_quadratic_exact_spin [] strength raw choices bag st auxs hmq hch x hx hall
+    exact ⟨x', hx', hoff, by rw [hEof x' hx', hE', hen]⟩
+  · intro hsat'
+    have hex : ∃ c ∈ st.constraints, x c.2 ≠ x c.1.1 * x c.1.2 := by
+      apply Classical.byContradiction
+      intro hne
+      have hall : ∀ c ∈ st.constraints, x c.1.1 * x c.1.2 = x c.2 := by
+        intro c hc
+        apply Classical.byContradiction
+        intro hcc
+        exact hne ⟨c, hc, fun e => hcc e.symm⟩
+      have := hsat.2 (Or.inr hall)
+      rw [hsat'] at this
+      exact Bool.false_ne_true this
+    have h1 := hpen.2 hex
+    rw [hEof x hx, he]
+    have : strength * 1 ≤ strength * penSumS x st.constraints auxs := Rat.mul_le_mul_of_nonneg_left h1 hs
+    grind
+
 /-! ## non-vacuity -/
 
 example : (bkReduce (normPoly .binary [([.int 0, .int 1, .int 2], -2), ([.int 0], -1)]) [.int 0, .int 1, .int 2] [(.int 0, .int 1)]).map
